@@ -7,6 +7,18 @@ CLAIMS = {
         category="proof", technique="contract-based deductive verification (Verus/SMT on the extracted real function)",
         text="ROWS-frame computation (WindowFrameContext::calculate_range_rows) proved, for every u64 offset, every frame shape and every idx < length, to return exactly the mathematical frame {j | 0<=j<length, idx-p<=j<=idx+f} with no arithmetic overflow. The rest of the property (RANGE/GROUPS frames, evaluators, executors) is outside the reach of contracts and is not claimed.",
         note="Trusted: Verus+Z3; usize is 64 bit; type model of ScalarValue/WindowFrameBound limited to the variants the function matches; rewrites R9/R11 of DESIGN.md 2.2; precondition idx < length from call sites."),
+    "C10": dict(
+        category="proof", technique="contract-based deductive verification (Verus/SMT on extracted real functions; comparison and Arrow access behind assumed contracts)",
+        text="Routing decision of range repartitioning: range_partition_id returns the number of split points <= row (binary search proved against a counting spec under an abstract total pre-order), and partition_range_indices puts every row of a batch exactly once into the bucket of its partition id (view invariant over all buckets). RangeExpr::evaluate is checked to call the same contracted function with its own split points. Hash routing is proved under C11. Channels, spilling, drop handling and order-preserving merge (schedules, I/O) are not within reach and are not claimed.",
+        note="Trusted: Verus+Z3; compare_rows as uninterpreted comparison with assumed transitivity; extract_row_at_idx_to_buf / first().len() / SplitPoint::values behind assumed contracts; split points strictly sorted (validate_range_split_points) and indices.len()==splits+1 as preconditions; rewrites R3/R13."),
+    "C14": dict(
+        category="proof", technique="contract-based deductive verification (Verus/SMT, inductive loop invariant over a chain-sequence view, on the extracted real function, monomorphised u32/u64)",
+        text="traverse_chain proved, for every well-formed next-array (forward or reversed insertion order), every start, every page size, to append exactly the next min(remaining, len) build rows of the chain in chain order with the probe index repeated, to decrement the budget exactly, and to return an offset from which the remainder of the same chain is produced (lemma_resume: pages of any size concatenate to the unpaged sequence). Hash-table lookup itself (hashbrown) and NULL masks are outside Verus and not part of the proof.",
+        note="Trusted: Verus+Z3; usize 64 bit; rewrite R3 (T -> u32 / u64, usize_as/into == as). Preconditions: well-formed next array, 1 <= start <= len, remaining >= 1."),
+    "C23": dict(
+        category="proof", technique="contract-based verification with Kani/CBMC (loop-free harnesses over all bit patterns = complete)",
+        text="The float successor/predecessor (next_up/next_down, f32 and f64) used to turn strict bounds into closed intervals are proved for every bit pattern: NaN and the respective infinity are fixed points, the result is never on the wrong side, no representable value lies strictly between argument and result, the pair is inverse on finite values. Interval operators, cp_solver and anything through ScalarValue/Arrow are outside reach and not claimed.",
+        note="Trusted: Kani/CBMC float comparison semantics. Only the bit-level part of C23's soundness is decided."),
     "C11": dict(
         category="proof", technique="contract-based deductive verification (Verus/SMT, non-linear + bit-vector lemmas, on extracted real functions)",
         text="Unbounded proof that StrengthReducedU64::{new, quotient, partition_indices} route row j to bucket hash[j] mod n, each row exactly once, for all 2^64 hashes and all divisors 1..2^64-1 (Granlund-Montgomery lemma proved in Verus); seeded mutants must all be rejected in the thorough tier.",
@@ -30,10 +42,8 @@ NOT_APPLICABLE = {
     'C06': 'unit not built yet in this session (planned: Kani contracts on GroupOrderingFull/Partial state machines, DESIGN.md section 3)',
     'C07': 'Accumulator split/merge/retract laws: generic Arrow kernels, floats and macro-generated impls; no contract within reach.',
     'C08': 'unit not built yet in this session (planned: Kani on ArrayValues::compare and the loser tree, DESIGN.md section 3)',
-    'C10': 'unit not built yet in this session (planned: Verus on range_partition_id / partition_range_indices / round robin, DESIGN.md section 3)',
     'C12': 'Hash independence from physical array layout: quantifies over Arrow encodings (dictionary, views, run-end, nested offsets); Arrow arrays are outside Verus and intractable under CBMC.',
     'C13': 'Group-key interning: hashbrown tables + Arrow builders per key type; only the trivial boolean store is reachable, which would not represent the property.',
-    'C14': 'unit not built yet in this session (planned: Verus on traverse_chain + bounded Kani on the map API, DESIGN.md section 3)',
     'C15': 'schedules; sequential step invariants only would not decide the stated quantifier (stretch unit not built)',
     'C16': 'interleavings and file I/O; only an exit-path contract with stubbed I/O is conceivable (stretch unit not built yet)',
     'C17': 'unit not built yet in this session (planned: Verus on FairSpillPool, Kani on the other pools and the reservation ledger, DESIGN.md section 3)',
@@ -41,7 +51,6 @@ NOT_APPLICABLE = {
     'C19': 'Drop/cancellation releases resources: tokio task lifecycle and schedules; no thread/async support in either verifier.',
     'C20': 'Error propagation through streams: async operators and task fan-out; out of reach.',
     'C22': 'Pruning soundness: symbolic predicate rewriting evaluated by Arrow kernels over statistics arrays; needs expression semantics.',
-    'C23': 'unit not built yet in this session (planned: Kani full-domain proof of next_up/next_down, DESIGN.md section 3)',
     'C24': 'Parquet pushdown equivalence: parquet/arrow readers, file I/O.',
     'C25': 'Write/read round-trip of file formats: I/O and third-party encoders.',
     'C26': 'Byte-range scans: `AlignedBoundaryStream` is an async state machine over `object_store`; `repartition_evenly_by_size` is iterator-adapter/itertools code over `PartitionedFile` — outside Verus, and a bounded Kani run through `ObjectMeta`/`String` clones was judged not worth its cost.',
